@@ -172,7 +172,7 @@ def step (fs : List Force) (st : St) : Op → St
     -- invalidateForceCache(state); updParameters(state) (Dynamics); if the new magnitude is 0 the cache is
     -- filled with the (q-independent) zeros right away
     if (fs.getD i default).gravity then
-      let st1 := st
+      let st1 := { st with lazyFresh := setAt st.lazyFresh i false }
       let st2 := st1.inval 7
       let vars := { st2.vars with params := setParamVal st2.vars.params i j v, zeroMag := setAt st2.vars.zeroMag i zero }
       { st2 with vars := vars,
